@@ -133,7 +133,8 @@ def run(prop, tier, seed):
         runs = [("checked", "checked", ["zst"]), ("release", "release", ["zst"])]
         return run_reports(prop, tier, seed, runs, "replay-zst",
                            ["counter model: for a zero-sized element type only lengths, Some/None/Err shapes and the number of constructor/destructor runs are observable",
-                            "the assertion-checked build turns arithmetic overflow, division by zero and debug assertions into panics"],
+                            "the assertion-checked build turns arithmetic overflow, division by zero and debug assertions into panics",
+                            "capacity-independence sub-check: where as_slices() splits the contents is assumed to depend on the history and the distance of the front from the array end only, not on the capacity (reference run at capacity 65537)"],
                            "zero-sized drop-counting elements at 13 capacities (usize::MAX, usize::MAX-1, 2^63+1, 2^63, 2^63-1, 2^32+1, 2^32, 2^32-1, 65537, 3, 2, 1, 0); "
                            "front position near N (push_front from empty) and near 0, moved across the wrap by pops; every operation whose cost does not grow with N "
                            "with boundary arguments (0, 1, len-1, len, len+1, N-1, N, usize::MAX) and every bound pair; proptest histories. "
